@@ -28,6 +28,7 @@ def sh(cmd, **kw):
 def ingest(bid, wt):
     d = os.path.join(DIR, bid)
     os.makedirs(d, exist_ok=True)
+    sh(["git", "-C", wt, "add", "-N", "edgegraph"])          # so that new files are part of the diff
     diff = sh(["git", "-C", wt, "diff", "--", "edgegraph"]).stdout
     if not diff.strip():
         sys.exit("no diff under edgegraph/")
@@ -43,7 +44,10 @@ def run(bid, props):
     results = {}
     try:
         # the committed tree (HEAD), not the working tree: a seeded patch may be applied to /repo right now
-        ar = subprocess.run("git -C /repo archive HEAD edgegraph | tar -x -C " + scratch, shell=True)
+        base = "HEAD"
+        if os.path.exists(os.path.join(d, "base")):
+            base = open(os.path.join(d, "base")).read().strip()      # the commit the refactoring was written against
+        ar = subprocess.run(f"git -C /repo archive {base} edgegraph | tar -x -C " + scratch, shell=True)
         if ar.returncode:
             sys.exit("git archive failed")
         ap = sh(["patch", "-p1", "-s", "-d", scratch, "-i", os.path.join(d, "patch.diff")])
